@@ -115,7 +115,7 @@ def campaign(tag, spec, sh, judge, classes, pool_first=0, long_share=0.15, **gen
             case = gen.pipeline_case(rng, classes, **gen_kw)
         case['kind'] = 'e2e'
         case['gen'] = [spec['seed'], spec['shard'], i]
-        judge(case, spec['workdir'], sh)
+        core.isolated(judge, sh, case, spec['workdir'])
     if hooks.MONITOR_ERRORS:
         sh.inconclusive.append('monitor errors: %s' % hooks.MONITOR_ERRORS[:3])
     return sh
